@@ -52,7 +52,7 @@ Definition alone_reader (h : header) (rs : list record) : reader := mk_reader (f
      how the reader ends have no influence on the result for that file). *)
 Theorem Decode_denote_full : forall o g rd fuel h rs ss1 f2 g1 extra,
   header_wf h -> h_dsize h = N.of_nat (List.length (ser_records rs)) ->
-  starts_with_file_id rs = true -> stream_wf rs = true -> no_time_quirk rs = true -> denote rs = Some ss1 ->
+  starts_with_file_id rs = true -> stream_wf rs = true -> denote rs = Some ss1 ->
   start_file h g (hd dummy_msg (ss_msgs ss1)) = Some (f2, g1) ->
   rd_data rd = fit_file h rs ++ extra ->
   (List.length (rd_data rd) + List.length (rd_sched rd) < fuel)%nat ->
@@ -70,9 +70,9 @@ Theorem Decode_denote_full : forall o g rd fuel h rs ss1 f2 g1 extra,
        exists rd0, entry_Decode o g (alone_reader h rs) fuel0 = TDone (mk_dres None h (Some file') rd0 g' q) /\
                    rd_data rd0 = [] /\ rd_pos rd0 = List.length (fit_file h rs)).
 Proof.
-  intros o g rd fuel h rs ss1 f2 g1 extra Hh Hsz Hs Hwf Hq Hd Hst Hdata Hfuel.
+  intros o g rd fuel h rs ss1 f2 g1 extra Hh Hsz Hs Hwf Hd Hst Hdata Hfuel.
   destruct (decode_denote_abstract o h g rs ss1 f2 g1 (put_le16 (file_crc h (ser_records rs)) ++ extra) (rd_term rd)
-              Hs Hwf Hq Hd Hst) as (s1 & f & g' & Hrun & Hroute & Hf & Hg & Hm & Hu & _).
+              Hs Hwf Hd Hst) as (s1 & f & g' & Hrun & Hroute & Hf & Hg & Hm & Hu & _).
   pose proof (all_bytes_is_bytes _ (stream_wf_bytes rs Hwf)) as Hbytes.
   destruct (entry_Decode_frame_full o g rd fuel h (ser_records rs) extra s1 Hh Hbytes Hsz Hdata Hfuel Hrun)
     as (rd' & Hdec & Hpos & Hrest & Hterm & Hmsr).
@@ -106,7 +106,7 @@ Qed.
 
 Theorem Decode_denote : forall o g rd fuel h rs ss1 f2 g1 extra,
   header_wf h -> h_dsize h = N.of_nat (List.length (ser_records rs)) ->
-  starts_with_file_id rs = true -> stream_wf rs = true -> no_time_quirk rs = true -> denote rs = Some ss1 ->
+  starts_with_file_id rs = true -> stream_wf rs = true -> denote rs = Some ss1 ->
   start_file h g (hd dummy_msg (ss_msgs ss1)) = Some (f2, g1) ->
   rd_data rd = fit_file h rs ++ extra ->
   (List.length (rd_data rd) + List.length (rd_sched rd) < fuel)%nat ->
@@ -119,8 +119,8 @@ Theorem Decode_denote : forall o g rd fuel h rs ss1 f2 g1 extra,
     (o_unkf o = true -> f_unkf file' = Some (sorted_unkf ss1)) /\
     rd_pos rd' = (rd_pos rd + List.length (fit_file h rs))%nat /\ rd_data rd' = extra.
 Proof.
-  intros o g rd fuel h rs ss1 f2 g1 extra Hh Hsz Hs Hwf Hq Hd Hst Hdata Hfuel.
-  destruct (Decode_denote_full o g rd fuel h rs ss1 f2 g1 extra Hh Hsz Hs Hwf Hq Hd Hst Hdata Hfuel)
+  intros o g rd fuel h rs ss1 f2 g1 extra Hh Hsz Hs Hwf Hd Hst Hdata Hfuel.
+  destruct (Decode_denote_full o g rd fuel h rs ss1 f2 g1 extra Hh Hsz Hs Hwf Hd Hst Hdata Hfuel)
     as (rd' & file' & f & g' & q & H1 & H2 & H3 & H4 & H5 & H6 & H7 & H8 & H9 & H10 & _).
   exists rd', file', f, g', q. repeat split; assumption.
 Qed.
@@ -141,7 +141,7 @@ Qed.
 
 Example Decode_denote_example :
   header_wf ok_hdr /\ h_dsize ok_hdr = N.of_nat (List.length (ser_records ok_stream)) /\
-  starts_with_file_id ok_stream = true /\ stream_wf ok_stream = true /\ no_time_quirk ok_stream = true /\
+  starts_with_file_id ok_stream = true /\ stream_wf ok_stream = true /\
   (exists ss f2 g1, denote ok_stream = Some ss /\ start_file ok_hdr g_init (hd dummy_msg (ss_msgs ss)) = Some (f2, g1)) /\
   rd_data ok_reader = fit_file ok_hdr ok_stream ++ [1; 2; 3] /\
   (List.length (rd_data ok_reader) + List.length (rd_sched ok_reader) < 200)%nat /\
@@ -152,7 +152,7 @@ Example Decode_denote_example :
   end.
 Proof.
   split; [exact ok_hdr_wf|]. split; [reflexivity|].
-  split; [vm_compute; reflexivity|]. split; [vm_compute; reflexivity|]. split; [vm_compute; reflexivity|].
+  split; [vm_compute; reflexivity|]. split; [vm_compute; reflexivity|].
   split.
   { destruct (denote ok_stream) as [ss|] eqn:E; [|vm_compute in E; discriminate].
     destruct (start_file ok_hdr g_init (hd dummy_msg (ss_msgs ss))) as [[f2 g1]|] eqn:E2.
